@@ -10,13 +10,16 @@
   case header:  case <n> client <num|str> <cap> <fcap>
   ops (every op line starts with the family tag `cl`):
                 cl call [<method hex> [<params hex>]] | cl subscribe | cl batch <n> | cl regnotif <method hex>
+                | cl tbatch <u64|str|bool|pt|optu64> <n>   (batch_request::<R>, see `tdecOf`)
                 | cl notify | cl abandon <op> | cl deliver <text hex> | cl next <op> | cl drop <op>
                 | cl unsub <op> | cl gate open|shut | cl sizes
   HTTP client:  case <n> httpc <num|str> ; hc batch <n> <reply hex> | hc call <reply hex>
+                | hc tbatch <ty> <n> <reply hex>
   pure verbs:   wsbatch <num|str> <start> <n> <array hex> | httpbatch <num|str> <start> <n> <array hex>
 -/
 import JrpcVerif.Driver.Codec
 import JrpcVerif.Model.ClientMgr
+import JrpcVerif.Model.ParamsSeq
 namespace Jrpc.Driver
 open Jrpc Jrpc.Client
 
@@ -32,6 +35,7 @@ structure ClientSt where
   httpNext : Nat := 0
   httpStr : Bool := false
   draining : List ChanId := []       -- streams consumed by `Subscription::unsubscribe`
+  btypes : List (Nat × String) := [] -- result type of the typed batches (`cl tbatch`), by op
   active : Bool := false
 
 def errObjRepr (e : ErrObj) : String :=
@@ -59,6 +63,42 @@ def outcomeRepr : Outcome → String
   | .occupied => "E:occupied"
   | .alreadyRegistered => "E:already"
 
+/-! typed batches: the result types the harness instantiates `batch_request::<R>` with -/
+
+/-- a decoded `R`, as the text the harness prints for it (`TypedR::show`) -/
+inductive TVal where
+  | u (n : Nat) | s (t : Text) | b (v : Bool) | pt (x y : Nat) | opt (o : Option Nat)
+
+def TVal.text : TVal → Text
+  | .u n => encodeNat n
+  | .s t => t
+  | .b v => if v then tTrue else tFalse
+  | .pt x y => encodeNat x ++ [44] ++ encodeNat y
+  | .opt none => lit "none"
+  | .opt (some n) => lit "some:" ++ encodeNat n
+
+/-- `#[derive(Deserialize)] struct Pt { x: u64, y: u64 }`: object by name or array by position -/
+def decPt (raw : Text) : Option TVal :=
+  match structFields [[120], [121]] false raw with
+  | some [some a, some b] =>
+    (match decodeU64 a, decodeU64 b with
+     | some x, some y => some (.pt x y)
+     | _, _ => none)
+  | _ => none
+
+def tdecOf (ty : String) : Option (Text → Option TVal) :=
+  match ty with
+  | "u64" => some (fun r => (decodeU64 r).map TVal.u)
+  | "str" => some (fun r => (decodeString r).map TVal.s)
+  | "bool" => some (fun r => (decBool r).map TVal.b)
+  | "pt" => some decPt
+  | "optu64" => some (fun r => (optDec decodeU64 r).map TVal.opt)
+  | _ => none
+
+def tentryRepr : TEntry TVal → String
+  | .ok v => s!"ok:{hexText v.text}"
+  | .err e => errObjRepr e
+
 def bErrRepr : BErr → String
   | .invalidId id => s!"invalid:{hexText (idText id)}"
   | .invalidNum n => s!"invalid:{hexText (encodeNat n)}"
@@ -72,6 +112,11 @@ def fatalRepr : Fatal → String
   | .batch e => s!"fatal:{bErrRepr e}"
   | .notPending id => s!"fatal:notpending:{hexText (idText id)}"
 
+def tresRepr (fatal : Bool) : TRes (TBatchResult TVal) → String
+  | .err e => (if fatal then "fatal:" else "E:") ++ bErrRepr e
+  | .parse => "E:parse"
+  | .ok b => s!"batch:{b.successes}:{b.failures}:" ++ String.intercalate "," (b.entries.map tentryRepr)
+
 def wiresOf : List Effect → List Text
   | [] => []
   | .wire t :: r => t :: wiresOf r
@@ -81,6 +126,15 @@ def completionsOf : List Effect → List (Nat × String)
   | [] => []
   | .complete t o :: r => (t.op, outcomeRepr o) :: completionsOf r
   | _ :: r => completionsOf r
+
+/-- completions, the batches of typed ops rendered through their decoder (mod.rs:586-603) -/
+def completionsOfT (tys : List (Nat × String)) : List Effect → List (Nat × String)
+  | [] => []
+  | .complete t o :: r =>
+    (t.op, match o, (tys.lookup t.op).bind tdecOf with
+           | .batch rs, some δ => tresRepr false (wsTyped δ rs)
+           | _, _ => outcomeRepr o) :: completionsOfT tys r
+  | _ :: r => completionsOfT tys r
 
 def insertSorted (x : Nat × String) : List (Nat × String) → List (Nat × String)
   | [] => [x]
@@ -105,7 +159,7 @@ def sendLoop : Nat → ClientSt → Acc → ClientSt × Acc
     if cs.stuck || cs.st.pool.isEmpty then (cs, a) else
     let r := step cs.st (.sendTask 0)
     let ws := wiresOf r.effs
-    let a1 := { a with comps := a.comps ++ completionsOf r.effs }
+    let a1 := { a with comps := a.comps ++ completionsOfT cs.btypes r.effs }
     if ws.isEmpty then sendLoop fuel { cs with st := r.st } a1
     else if cs.gateOpen then sendLoop fuel { cs with st := r.st } { a1 with wires := a1.wires ++ ws }
     else ({ cs with st := r.st, stuck := true, held := ws }, a1)
@@ -134,7 +188,7 @@ def chanOfOp (st : St) (op : Nat) : Option ChanId :=
 
 def applyStep (cs : ClientSt) (s : Step) : ClientSt × String :=
   let r := step cs.st s
-  let a : Acc := { comps := completionsOf r.effs }
+  let a : Acc := { comps := completionsOfT cs.btypes r.effs }
   match r.fatal with
   | some f => ({ cs with st := r.st, halted := true }, fatalRepr f)
   | none =>
@@ -188,6 +242,17 @@ def clientVerb (cs : ClientSt) (ws : List String) : Option (ClientSt × String) 
            if (es.filterMap decodeResponse).length != es.length then ({ cs with httpNext := cs.httpNext + 1 }, "E:parse")
            else ({ cs with httpNext := cs.httpNext + 1 }, batchResRepr (httpBatch cs.httpNext k (es.filterMap decodeResponse))))
       | _, _ => (cs, "bad-op"))
+  | ["hc", "tbatch", ty, n, h] =>
+    some (if !cs.httpActive then (cs, "bad-op") else
+      match tdecOf ty, n.toNat?, unhexText h with
+      | some δ, some k, some t =>
+        if k == 0 then (cs, "bad-op") else
+        (match elements t with
+         | none => ({ cs with httpNext := cs.httpNext + 1 }, "E:parse")
+         | some es =>
+           if (es.filterMap decodeResponse).length != es.length then ({ cs with httpNext := cs.httpNext + 1 }, "E:parse")
+           else ({ cs with httpNext := cs.httpNext + 1 }, tresRepr false (httpBatchT δ cs.httpNext k (es.filterMap decodeResponse))))
+      | _, _, _ => (cs, "bad-op"))
   | ["hc", "call", h] =>
     some (if !cs.httpActive then (cs, "bad-op") else
       match unhexText h with
@@ -229,6 +294,12 @@ def clientVerb (cs : ClientSt) (ws : List String) : Option (ClientSt × String) 
         (match n.toNat? with
          | some k => if k == 0 then (cs, "bad-op") else applyStep cs (.newBatch tM k)
          | none => (cs, "bad-op"))
+      | "tbatch", [ty, n] =>
+        (match tdecOf ty, n.toNat? with
+         | some _, some k =>
+           if k == 0 then (cs, "bad-op")
+           else applyStep { cs with btypes := (cs.st.nextOp, ty) :: cs.btypes } (.newBatch tM k)
+         | _, _ => (cs, "bad-op"))
       | "regnotif", [m] =>
         (match unhexText m with
          | some meth => applyStep cs (.newRegister meth)
